@@ -360,6 +360,10 @@ def build_case(ctx, kind, r, small):
         W = G.link_attr(r, A, directed) if A.any() else None
         lat = np.round(r.uniform(-80, 80, n))
         lon = np.round(r.uniform(-170, 170, n))
+        via_edges = bool(r.random() < 0.3)
+        edges0 = np.argwhere(A if directed else np.triu(A))
+        if via_edges:
+            ctx.count("rebuilt_from_edge_list")
 
         def make(p):
             Ap = A[np.ix_(p, p)]
@@ -370,8 +374,15 @@ def build_case(ctx, kind, r, small):
             else:
                 cls = InteractingNetworks if kind == "InteractingNetworks" \
                     else Network
-                o = cls(adjacency=Ap, directed=directed, node_weights=w[p],
-                        silence_level=3)
+                if via_edges and len(edges0) and cls is Network:
+                    # rebuilt from the renumbered edge list: every link keeps
+                    # the orientation it was listed in, (low, high) or not
+                    o = cls(edge_list=np.argsort(p)[edges0], n_nodes=n,
+                            directed=directed, node_weights=w[p],
+                            silence_level=3)
+                else:
+                    o = cls(adjacency=Ap, directed=directed,
+                            node_weights=w[p], silence_level=3)
             if W is not None:
                 o.set_link_attribute("w", W[np.ix_(p, p)])
             return o
